@@ -1,6 +1,7 @@
 package vrun
 
 import (
+	"crypto/tls"
 	"fmt"
 	"net"
 	"sync/atomic"
@@ -18,14 +19,36 @@ import (
 type peer struct {
 	ln  net.Listener
 	uri string
+	tls bool
 }
+
+// peerTLS: the peers opened while it is set speak TLS, and the library Client reaches them through
+// ConnectTLS instead of Connect (a second copy of the connect sequence in the library).
+var peerTLS atomic.Bool
 
 func newPeer() (*peer, error) {
 	ln, err := net.Listen("tcp", "127.0.0.1:0")
 	if err != nil {
 		return nil, err
 	}
-	return &peer{ln: ln, uri: "tcp://" + ln.Addr().String()}, nil
+	p := &peer{ln: ln, uri: "tcp://" + ln.Addr().String()}
+	if peerTLS.Load() {
+		cert, err := selfSigned()
+		if err != nil {
+			ln.Close()
+			return nil, err
+		}
+		p.ln, p.tls = tls.NewListener(ln, &tls.Config{Certificates: []tls.Certificate{cert}}), true
+	}
+	return p, nil
+}
+
+// connect makes the library Client connect to the peer the way the peer speaks.
+func (p *peer) connect(cln *service.Client, msg *message.ConnectMessage) error {
+	if p.tls {
+		return cln.ConnectTLS(p.uri, msg, &tls.Config{InsecureSkipVerify: true})
+	}
+	return cln.Connect(p.uri, msg)
 }
 
 func (p *peer) close() { p.ln.Close() }
@@ -81,7 +104,7 @@ func openSessionID(policy rawclient.AckPolicy, bufSize int64, cid string) (*sess
 				errc <- fmt.Errorf("panic: %v", r)
 			}
 		}()
-		errc <- cln.Connect(p.uri, clientConnectMsg(cid, 600))
+		errc <- p.connect(cln, clientConnectMsg(cid, 600))
 	}()
 	conn, err := p.acceptRaw(5 * time.Second)
 	if err != nil {
